@@ -8,6 +8,12 @@ CLI_NOTE = ("Trusted: the device reference model (one line per (rule,key), own n
             "permanent/ignore_changes only outside %ordered blocks). Sampling, not proof. Junos-style flattening vendors not covered.")
 
 CLAIMED = {
+ "C11": dict(
+    engine="vlan",
+    technique="deterministic simulation with fault injection: seeded VLAN-set histories through the real `annet deploy` on the shipped huawei/cisco/nexus rulebooks against a set-valued device model; invariant after every executed command, deploys cut at drawn commands",
+    level_text="Seeded exploration: the device holds each VLAN list as a set and renders it with its own range writer split over 1-4 lines, the generator renders the desired set with an independent splitting; the real api.adeploy produces the commands from the shipped rulebooks and vlandb logic; after EVERY command S_old & S_new must still be present (so every cut point is covered) and after an un-cut deploy the set must equal the desired one; expand/collapse are cross-checked at the seam by the device's independent parser/writer.",
+    design_ref="DESIGN.md 5 (C11)",
+    level_note="Trusted: VlanDevice's command semantics (add / remove / none / undo all), its independent range parser and writer. VLAN 1 and Huawei's 'undo port trunk allow-pass vlan 1' default line are outside the universe; vlan-id blocks (vlan N / name) are not generated; 'vlan pool' lists are not among the lists the property names (huawei.rul keys them per line) and are left out."),
  "C09": dict(
     engine="cli",
     technique="deterministic simulation: seeded deploys through the real `annet patch` and `annet deploy` front ends; the command stream is observed at the DeployDriver seam and replayed on a virtual clock against a device conforming to the reference deploy rules",
